@@ -17,7 +17,8 @@ child                            -- the lines after `child` describe the child e
 end
 ```
 kinds: `bind` (model `invoke`, `specCall`, `corner`, `wfB`), `ba` (`baArgs`/`baKwargs`), `call` (`pyCall`),
-`event` (reserved-name filter, layering, cache, binder for each `cb`; optional forwarded child event).
+`event` (reserved-name filter, layering, cache, binder for each `cb`; optional forwarded child event),
+`layer` (`extendedKwargs` on unfiltered keywords, `filterReserved`).
 All names and values are numbers; the harness owns the string tables.
 -/
 open SMV.Bind
@@ -158,6 +159,7 @@ def runScn (s : Scn) : List String :=
      s!"kwargs {kwS (baKwargs s.sig s.arguments false)}"]
   | "call" => [s!"frame {frameS (pyCall s.sig s.args s.kw)}"]
   | "event" => runEvent s
+  | "layer" => [s!"ek {kwS (extendedKwargs s.kw (bFun s.b))}", s!"tk {kwS (filterReserved s.kw)}"]
   | k => [s!"unknown-kind {k}"]
 
 partial def loop (h : IO.FS.Stream) (cur : Option Scn) : IO Unit := do
